@@ -855,18 +855,21 @@ Proof.
       left. split; [reflexivity|]. split; [exact A4|]. intros b B1 B2. apply A3. cbn [In]. intros [H|[H|[]]]; congruence.
 Qed.
 
+Lemma chunk_ok_str text dq bq : chunk_ok text (NStr text dq bq).
+Proof. unfold chunk_ok. destruct text; [exact I|eauto]. Qed.
+
 Lemma add_chunk_gen text hdr m w x d c l rc rcx nx :
   wf w -> heap w m = Some (CItem rc (NChunked text hdr d c l)) ->
   is_data w hdr -> (forall b, d = Some b -> is_data w b) -> d <> Some hdr ->
-  capinvC d c l -> heap w x = Some (CItem rcx nx) -> m <> x ->
+  capinvC d c l -> heap w x = Some (CItem rcx nx) -> chunk_ok text nx -> m <> x ->
   wp (add_chunk refuse m x) w
      (gpush_post m rc (fun d' c' => NChunked text hdr d' c' (l ++ [x]))
                  (fun d' c' => capinvC d' c' (l ++ [x])) w x d rcx nx).
 Proof.
-  intros Hwf Em (hsz & Eh) Hb Hdh (C1 & C2 & C3) Ex Hmx.
+  intros Hwf Em (hsz & Eh) Hb Hdh (C1 & C2 & C3) Ex Hkx Hmx.
   assert (BI : block_inv w d c).
   { destruct d as [o|]; [|apply C1; reflexivity]. apply Hb. reflexivity. }
-  destruct (add_chunk_spec refuse m x w rc text hdr hsz d c l rcx nx Hwf Em Eh BI Hdh Ex Hmx C2) as [Room Full].
+  destruct (add_chunk_spec refuse m x w rc text hdr hsz d c l rcx nx Hwf Em Eh BI Hdh Ex Hkx Hmx C2) as [Room Full].
   destruct (N.eq_dec (len l) c) as [L|L].
   - specialize (Full L). destruct (grow_req SZ_PTR c) as [[c' bytes]|].
     + destruct Full as (G1 & G2 & G3 & G4 & Full). destruct (refuse (nreq w) bytes).
@@ -903,15 +906,18 @@ Qed.
 Lemma add_chunk_Inv own ownd p q w rc text hdr d c l :
   Inv own ownd [] w -> heap w p = Some (CItem rc (NChunked text hdr d c l)) -> capinvC d c l ->
   0 < own q -> rc_room w q -> p <> q ->
+  (exists rcq dq bq, heap w q = Some (CItem rcq (NStr text dq bq))) ->
   wp (add_chunk refuse p q) w (fun _ w' => Inv own ownd [] w').
 Proof.
-  intros I Ep Cap Oq Rq Hpq. destruct (Inv_owned_item _ _ _ _ I Oq) as (rcq & nq & Eq & _).
+  intros I Ep Cap Oq Rq Hpq Hkq. destruct (Inv_owned_item _ _ _ _ I Oq) as (rcq & nq & Eq & _).
+  assert (Hk : chunk_ok text nq).
+  { destruct Hkq as (rcq' & dq & bq & Eq'). rewrite Eq in Eq'. injection Eq' as _ ->. apply chunk_ok_str. }
   pose proof (Inv_blocks _ _ _ _ _ _ I Ep) as Hb. cbn [dblocks] in Hb.
   destruct (Hb hdr ltac:(apply in_or_app; right; left; reflexivity)) as [Hh Ch].
   assert (Hdh : d <> Some hdr).
   { intros ->. cbn [olist app cnt] in Ch. rewrite N.eqb_refl in Ch. lia. }
   eapply wp_mono.
-  - eapply (add_chunk_gen text hdr p w q d c l rc rcq nq (Inv_wf _ _ _ _ I) Ep Hh); [|exact Hdh|exact Cap|exact Eq|exact Hpq].
+  - eapply (add_chunk_gen text hdr p w q d c l rc rcq nq (Inv_wf _ _ _ _ I) Ep Hh); [|exact Hdh|exact Cap|exact Eq|exact Hk|exact Hpq].
     intros b ->. apply Hb. left. reflexivity.
   - intros ok w' P. eapply (gpush_Inv own ownd p rc _ _ _ w q d rcq nq ok w' [hdr] I Hpq Ep Eq (Rq _ _ Eq)); [| | |exact P].
     + reflexivity.
@@ -1240,8 +1246,8 @@ End Ops.
    item, every map pair its value, the chunks of an indefinite string are definite strings, and
    the data block of every non-empty string / array / map / chunk list is there.  This is exactly
    what [abs] (hence cbor_serialized_size / cbor_serialize / cbor_serialize_alloc) dereferences. *)
-Definition str_ok (h : addr -> option cell) (c : addr) : Prop :=
-  exists rc text data bytes, h c = Some (CItem rc (NStr text data bytes)) /\
+Definition str_ok (h : addr -> option cell) (text : bool) (c : addr) : Prop :=
+  exists rc data bytes, h c = Some (CItem rc (NStr text data bytes)) /\
     (len bytes = 0 \/ data_live h data).
 
 Fixpoint readable (f : nat) (h : addr -> option cell) (a : addr) : Prop :=
@@ -1252,8 +1258,8 @@ Fixpoint readable (f : nat) (h : addr -> option cell) (a : addr) : Prop :=
       match n with
       | NInt _ _ _ | NFloat _ _ | NCtrl _ => True
       | NStr _ data bytes => len bytes = 0 \/ data_live h data
-      | NChunked _ hdr arr _ chunks =>
-          data_live h (Some hdr) /\ (chunks = [] \/ data_live h arr) /\ Forall (str_ok h) chunks
+      | NChunked text hdr arr _ chunks =>
+          data_live h (Some hdr) /\ (chunks = [] \/ data_live h arr) /\ Forall (str_ok h text) chunks
       | NArr _ data _ elems => (elems = [] \/ data_live h data) /\ Forall (readable f' h) elems
       | NMap _ data _ pairs =>
           (pairs = [] \/ data_live h data) /\
@@ -1305,10 +1311,10 @@ Proof.
   apply tot_bind; [exact Hx|]. intros y. apply tot_bind; [exact IH|]. intros ys. apply tot_ret.
 Qed.
 
-Lemma str_ok_tot h c : str_ok h c -> tot h (chunk_bytes c).
+Lemma str_ok_tot h text c : str_ok h text c -> tot h (chunk_bytes text c).
 Proof.
-  intros (rc & text & data & bytes & Ec & G). unfold chunk_bytes.
-  eapply tot_rd; [exact Ec|]. cbn [snd]. apply tot_bind; [apply tot_str_guard, G|]. intros _. apply tot_ret.
+  intros (rc & data & bytes & Ec & G). unfold chunk_bytes.
+  eapply tot_rd; [exact Ec|]. cbn [snd]. rewrite Bool.eqb_reflx. apply tot_bind; [apply tot_str_guard, G|]. intros _. apply tot_ret.
 Qed.
 
 Lemma readable_abs h : forall f a, readable f h a -> tot h (abs f a).
@@ -1324,7 +1330,7 @@ Proof.
     apply tot_bind; [apply tot_touch, Rh|]. intros _.
     apply tot_bind; [apply tot_guard, Ra|]. intros _.
     apply tot_bind; [|intros cs; apply tot_ret].
-    apply tot_mapM. eapply Forall_impl; [|exact Rc]. intros c. apply str_ok_tot.
+    apply tot_mapM. eapply Forall_impl; [|exact Rc]. intros c0. apply str_ok_tot.
   - destruct R as (Rd & Re).
     apply tot_bind; [apply tot_guard, Rd|]. intros _.
     apply tot_bind; [|intros xs; apply tot_ret].
@@ -1356,14 +1362,16 @@ Proof.
     apply bind_inv in H. destruct H as (u3 & w3 & E3 & H). apply guard_inv in E3. destruct E3 as [H3 G3].
     apply bind_inv in H. destruct H as (cs & w4 & E4 & _).
     split; [exact G2|]. split; [cbn [heap] in G3; rewrite H2 in G3; exact G3|].
-    destruct (mapM_each chunk_bytes chunk_bytes_keeps _ _ _ _ E4) as [_ F].
+    destruct (mapM_each (chunk_bytes text) (chunk_bytes_keeps text) _ _ _ _ E4) as [_ F].
     eapply Forall_impl; [|exact F]. intros c (wa & y & wb & Ha & Ec).
     assert (Hh : heap wa = heap w) by (rewrite Ha, H3, H2; reflexivity).
     unfold chunk_bytes in Ec. apply bind_inv in Ec. destruct Ec as ([rcc nc] & wc & Ec1 & Ec).
     unfold rd_item in Ec1. rewrite Hh in Ec1. destruct (heap w c) as [[rc1 n1|sz]|] eqn:Ecc; try discriminate Ec1.
-    injection Ec1 as -> -> <-. cbn [snd] in Ec. destruct nc; try discriminate Ec.
+    injection Ec1 as -> -> <-. cbn [snd] in Ec.
+    destruct nc as [| | |text0 data bytes|text0 ? ? ? ?| | |]; try discriminate Ec;
+      destruct (Bool.eqb_spec text0 text) as [->|Ne]; try discriminate Ec.
     apply bind_inv in Ec. destruct Ec as (u5 & w5 & E5 & _). apply str_guard_inv in E5. cbn [heap] in E5.
-    exists rcc, text0, data, bytes. split; [exact Ecc|]. apply E5.
+    exists rcc, data, bytes. split; [exact Ecc|]. apply E5.
   - apply bind_inv in H. destruct H as (u & w2 & E2 & H). apply guard_inv in E2. destruct E2 as [H2 G2].
     apply bind_inv in H. destruct H as (xs & w3 & E3 & _).
     destruct (mapM_each (abs f) (abs_keeps f) _ _ _ _ E3) as [_ F]. split; [exact G2|].
@@ -1626,6 +1634,10 @@ Proof.
   destruct n as [neg iw v|fw bits|v|text data bytes|text hdr arr cap chunks|indef data al elems|indef data al pairs|v c];
     try apply kq_fail.
   cbn [node_ok] in Hn. destruct Hn as (C1 & C2 & C3).
+  apply kq_bindT.
+  { unfold chunk_assert. destruct text; [apply kq_ret; exact I|]. apply kq_bind_rd. intros rcx nx _. cbn [snd].
+    destruct nx as [| | |[|] ? ?|[|] ? ? ? ?| | |]; first [apply kq_ret; exact I|apply kq_fail]. }
+  intros _.
   apply kq_bindT; [apply kq_touch|]. intros _.
   eapply kq_bind with (Q := fun st => match st with None => True | Some (d', c') => capinvC d' c' (chunks ++ [x]) end).
   - destruct (N.eqb_spec (len chunks) cap) as [Eq|Ne].
@@ -1976,6 +1988,10 @@ Definition own_after (s : cstate) (o : op) (own : addr -> N) (s' : cstate) : add
      ([rc_room]; two more when cbor_map_add gets the same item as key and as value);
    - type preconditions of the accessors (cbor_isa_array, cbor_isa_map, indefinite string, tag)
      appear as the node shape of the operand;
+   - the chunk given to cbor_bytestring_add_chunk / cbor_string_add_chunk is a DEFINITE string of
+     the SAME kind as the chunked string (documented; the byte-string function asserts it,
+     [chunk_assert] = FAssert 20 / 21; for text strings the next cbor_serialize_string asserts
+     it, [chunk_bytes] = FAssert 73, AUDIT.md D3 / D3b);
    - an item is not inserted into itself ([p <> q]; part of the no-cycle rule), and
      cbor_array_replace / cbor_array_set do not overwrite a slot that holds the array itself;
    - cbor_tag_set_item only on a tag that has no item yet (the library does not release the old
@@ -2008,7 +2024,9 @@ Definition legal (s : cstate) (own : addr -> N) (w : world) (o : op) : Prop :=
       exists rc indef d c l, heap w p = Some (CItem rc (NMap indef d c l))
   | OAddChunk c x => forall p q, hget s c = Some p -> hget s x = Some q ->
       0 < own p /\ 0 < own q /\ p <> q /\ rc_room w q /\
-      exists rc text hdr d c l, heap w p = Some (CItem rc (NChunked text hdr d c l))
+      exists rc text hdr d c l, heap w p = Some (CItem rc (NChunked text hdr d c l)) /\
+        (* the chunk is a definite string of the same kind (asserted by cbor_bytestring_add_chunk) *)
+        exists rcq dq bq, heap w q = Some (CItem rcq (NStr text dq bq))
   | OTagSet t x => forall p q, hget s t = Some p -> hget s x = Some q ->
       0 < own p /\ 0 < own q /\ p <> q /\ rc_room w q /\
       exists rc v, heap w p = Some (CItem rc (NTag v None))
@@ -2106,7 +2124,7 @@ Proof.
   - (* OAddChunk *)
     unfold with2. destruct (hget s c) as [p|]; [|apply wp_ret; exact I].
     destruct (hget s x) as [q|]; [|apply wp_ret; exact I].
-    destruct (Lg p q eq_refl eq_refl) as (Op & Oq & Hpq & Rq & rc & text & hdr & d & c0 & l & Ep).
+    destruct (Lg p q eq_refl eq_refl) as (Op & Oq & Hpq & Rq & rc & text & hdr & d & c0 & l & Ep & Eqk).
     pose proof (Cw _ _ _ Ep) as Cap. cbn [node_ok] in Cap.
     apply wp_bind. eapply wp_mono; [eapply add_chunk_Inv; eassumption|].
     intros b w' I'. apply wp_ret. exact I'.
@@ -2364,16 +2382,19 @@ Qed.
 Lemma add_chunk_edges own ownd p q w rc text hdr d c l :
   Inv own ownd [] w -> heap w p = Some (CItem rc (NChunked text hdr d c l)) -> capinvC d c l ->
   0 < own q -> p <> q ->
+  (exists rcq dq bq, heap w q = Some (CItem rcq (NStr text dq bq))) ->
   wp (add_chunk refuse p q) w (fun _ w' => edges_sub (fun a k => a = p /\ k = q) w w').
 Proof.
-  intros I Ep Cap Oq Hpq. destruct (Inv_owned_item _ _ _ _ I Oq) as (rcq & nq & Eq & Pq).
+  intros I Ep Cap Oq Hpq Hkq. destruct (Inv_owned_item _ _ _ _ I Oq) as (rcq & nq & Eq & Pq).
+  assert (Hkx : chunk_ok text nq).
+  { destruct Hkq as (rcq' & dq & bq & Eq'). rewrite Eq in Eq'. injection Eq' as _ ->. apply chunk_ok_str. }
   pose proof (Inv_wf _ _ _ _ I) as Hwf.
   pose proof (Inv_blocks _ _ _ _ _ _ I Ep) as Hb. cbn [dblocks] in Hb.
   destruct (Hb hdr ltac:(apply in_or_app; right; left; reflexivity)) as [Hh Ch].
   assert (Hdh : d <> Some hdr).
   { intros ->. cbn [olist app cnt] in Ch. rewrite N.eqb_refl in Ch. lia. }
   eapply wp_mono.
-  - eapply (add_chunk_gen refuse text hdr p w q d c l rc rcq nq Hwf Ep Hh); [|exact Hdh|exact Cap|exact Eq|exact Hpq].
+  - eapply (add_chunk_gen refuse text hdr p w q d c l rc rcq nq Hwf Ep Hh); [|exact Hdh|exact Cap|exact Eq|exact Hkx|exact Hpq].
     intros b ->. apply Hb. left. reflexivity.
   - intros ok w' P. eapply (gpush_edges p rc _ _ _ w q d rcq nq ok w' Hwf Ep Eq); [lia| |exact P].
     intros d' c' k Hk. cbn [kids] in *. apply in_app_or in Hk. destruct Hk as [Hk|[<-|[]]]; auto.
@@ -2734,7 +2755,7 @@ Proof.
     intros ? ? [-> [->| ->]]; assumption.
   - (* OAddChunk *)
     unfold with2. destruct (hget s c) as [p|]; [|apply Skip]. destruct (hget s x) as [q|]; [|apply Skip].
-    destruct (Lg p q eq_refl eq_refl) as (Op & Oq & Hpq & Rq & rc & text & hdr & d & c0 & l & Ep).
+    destruct (Lg p q eq_refl eq_refl) as (Op & Oq & Hpq & Rq & rc & text & hdr & d & c0 & l & Ep & Eqk).
     pose proof (Cw _ _ _ Ep) as Cap. cbn [node_ok] in Cap.
     destruct (Bl p q eq_refl eq_refl) as (rank & HR & Hlt).
     apply wp_bind. eapply wp_mono; [eapply add_chunk_edges; eassumption|].
